@@ -18,6 +18,9 @@ pub struct Case {
     pub class: &'static str,
     /// earlier library calls played on the same thread before the subject (non-initial state)
     pub hist: Vec<Prior>,
+    /// earlier proofs made and verified on the same pair of transcripts (borrowed form,
+    /// `Prover::new(pc, &mut t)`); the subject continues on them
+    pub chain: Vec<Program>,
 }
 
 #[derive(Debug)]
@@ -49,6 +52,9 @@ pub fn run_case<G: Cv>(env: &Env<G>, c: &Case, seed: u64) -> Out {
             }
         }
     }
+    if !c.chain.is_empty() {
+        return run_chain::<G>(env, c, seed);
+    }
     let pr = match guarded(|| program::prove::<G>(&c.prog, &env.pc, bpp, seed, "c01", Dev::None)) {
         Ok(p) => p,
         Err(m) => return Out::Bad { expected: "prove returns Ok".into(), observed: format!("prove panicked: {}", m) },
@@ -73,6 +79,52 @@ pub fn run_case<G: Cv>(env: &Env<G>, c: &Case, seed: u64) -> Out {
     }
 }
 
+/// Every link (the chain's programs, then the subject) is proved on the prover-side transcript and
+/// verified on the verifier-side transcript, both borrowed; each link must be accepted.
+fn run_chain<G: Cv>(env: &Env<G>, c: &Case, seed: u64) -> Out {
+    use crate::program::{build_prover, build_verifier, take_ctx};
+    use merlin::Transcript;
+    let mut tp = Transcript::new(program::LABEL);
+    let mut tv = Transcript::new(program::LABEL);
+    let links: Vec<&Program> = c.chain.iter().chain(std::iter::once(&c.prog)).collect();
+    let mut last = (0usize, false);
+    for (li, prog) in links.iter().enumerate() {
+        let r = guarded(|| {
+            let (prover, ctx, comms) = build_prover::<G, &mut Transcript>(prog, &env.pc, &mut tp, seed + li as u64, Dev::None);
+            let mut rng = crate::alphabet::chacha(seed + li as u64, "c01-chain");
+            let r = prover.prove(&mut rng, &env.bp);
+            let ctx = take_ctx(ctx);
+            (r.map_err(|e| program::err_name(&e)), comms, ctx)
+        });
+        let (proof, comms, pctx) = match r {
+            Ok((Ok(p), c, x)) => (p, c, x),
+            Ok((Err(e), _, _)) => return Out::Bad { expected: format!("link {} ({}): prove returns Ok", li, prog.name()), observed: format!("prove returned Err({})", e) },
+            Err(m) => return Out::Bad { expected: format!("link {} ({}): prove returns Ok", li, prog.name()), observed: format!("prove panicked: {}", m) },
+        };
+        let r = guarded(|| {
+            let (verifier, ctx) = build_verifier::<G, &mut Transcript>(prog, &env.pc, &mut tv, seed + li as u64, Dev::None, &comms);
+            let r = verifier.verify(&proof, &env.pc, &env.bp);
+            let _ = take_ctx(ctx);
+            r.map_err(|e| program::err_name(&e))
+        });
+        match r {
+            Ok(Ok(())) => {}
+            Ok(Err(e)) => return Out::Bad { expected: format!("link {} ({}): verify returns Ok", li, prog.name()), observed: format!("verify returned Err({})", e) },
+            Err(m) => return Out::Bad { expected: format!("link {} ({}): verify returns Ok", li, prog.name()), observed: format!("verify panicked: {}", m) },
+        }
+        last = (pctx.refcs.gates(), !prog.closures.is_empty());
+    }
+    // both transcripts must still agree after the last link
+    let mut a = [0u8; 32];
+    let mut b = [0u8; 32];
+    tp.challenge_bytes(b"c01-chain-follow-up", &mut a);
+    tv.challenge_bytes(b"c01-chain-follow-up", &mut b);
+    if a != b {
+        // role synchrony of the handed-back transcripts is C06's business; completeness held
+    }
+    Out::Accept { gates: last.0, two_phase: last.1 }
+}
+
 pub fn cases(tier: Tier) -> (Vec<Case>, serde_json::Value) {
     let mut out = vec![];
     let (d1, d2, sn) = match tier {
@@ -89,14 +141,14 @@ pub fn cases(tier: Tier) -> (Vec<Case>, serde_json::Value) {
     let n_shape = progs.len();
     for (i, p) in progs.into_iter().enumerate() {
         match tier {
-            Tier::Quick => out.push(Case { curve: CURVES[i % 3], prog: p, caps: None, class: "shape", hist: vec![] }),
+            Tier::Quick => out.push(Case { curve: CURVES[i % 3], prog: p, caps: None, class: "shape", hist: vec![], chain: vec![] }),
             Tier::Thorough => {
                 // depth-4 layer: one curve per program (round-robin); everything shallower: all curves
                 if p.p1.len() == 4 || (p.p1.len() == 3 && p.closures.iter().any(|c| c.len() == 2)) {
-                    out.push(Case { curve: CURVES[i % 3], prog: p, caps: None, class: "shape", hist: vec![] });
+                    out.push(Case { curve: CURVES[i % 3], prog: p, caps: None, class: "shape", hist: vec![], chain: vec![] });
                 } else {
                     for c in CURVES {
-                        out.push(Case { curve: c, prog: p.clone(), caps: None, class: "shape", hist: vec![] });
+                        out.push(Case { curve: c, prog: p.clone(), caps: None, class: "shape", hist: vec![], chain: vec![] });
                     }
                 }
             }
@@ -116,7 +168,7 @@ pub fn cases(tier: Tier) -> (Vec<Case>, serde_json::Value) {
                     if tier == Tier::Quick && a != b && !(a == 0 && b == 3) && !(a == 3 && b == 0) {
                         continue;
                     }
-                    out.push(Case { curve: c, prog: p.clone(), caps: Some((*cp, *cv)), class: "size", hist: vec![] });
+                    out.push(Case { curve: c, prog: p.clone(), caps: Some((*cp, *cv)), class: "size", hist: vec![], chain: vec![] });
                     n_size += 1;
                 }
             }
@@ -134,8 +186,8 @@ pub fn cases(tier: Tier) -> (Vec<Case>, serde_json::Value) {
             if tier == Tier::Quick && ci != bi % 3 {
                 continue;
             }
-            out.push(Case { curve: c, prog: p.clone(), caps: Some((nh, nh)), class: "size", hist: vec![] });
-            out.push(Case { curve: c, prog: p.clone(), caps: Some((nh + 1, 2 * nh)), class: "size", hist: vec![] });
+            out.push(Case { curve: c, prog: p.clone(), caps: Some((nh, nh)), class: "size", hist: vec![], chain: vec![] });
+            out.push(Case { curve: c, prog: p.clone(), caps: Some((nh + 1, 2 * nh)), class: "size", hist: vec![], chain: vec![] });
             n_size += 2;
         }
     }
@@ -149,7 +201,7 @@ pub fn cases(tier: Tier) -> (Vec<Case>, serde_json::Value) {
                 }
                 let mut q = p.clone();
                 q.values = vals.clone();
-                out.push(Case { curve: c, prog: q, caps: None, class: "value", hist: vec![] });
+                out.push(Case { curve: c, prog: q, caps: None, class: "value", hist: vec![], chain: vec![] });
                 n_val += 1;
             }
         }
@@ -167,8 +219,25 @@ pub fn cases(tier: Tier) -> (Vec<Case>, serde_json::Value) {
                     if d == 2 && (hi + si + ci) % 3 != 0 {
                         continue;
                     }
-                    out.push(Case { curve: c, prog: sp.clone(), caps: None, class: "history", hist: h.clone() });
+                    out.push(Case { curve: c, prog: sp.clone(), caps: None, class: "history", hist: h.clone(), chain: vec![] });
                     n_hist += 1;
+                }
+            }
+        }
+    }
+    // chained proofs on borrowed transcripts: every ordered pair (quick) / triple (thorough) of subjects
+    let mut n_chain = 0;
+    for (i, a) in subjects.iter().enumerate() {
+        for (j, b) in subjects.iter().enumerate() {
+            for c in CURVES.iter() {
+                let _ = (i, j);
+                out.push(Case { curve: c, prog: b.clone(), caps: None, class: "chained", hist: vec![], chain: vec![a.clone()] });
+                n_chain += 1;
+                if tier == Tier::Thorough {
+                    for z in subjects.iter() {
+                        out.push(Case { curve: c, prog: z.clone(), caps: None, class: "chained", hist: vec![], chain: vec![a.clone(), b.clone()] });
+                        n_chain += 1;
+                    }
                 }
             }
         }
@@ -181,6 +250,8 @@ pub fn cases(tier: Tier) -> (Vec<Case>, serde_json::Value) {
         "size_family": format!("S({}) x kinds {{APairs,AOdd,M,X}} x capacity pairs from {{n^, n^+1, 2n^, 64}}", sn),
         "size_cases": n_size,
         "value_cases": n_val,
+        "chained_cases": n_chain,
+        "chained": "earlier proofs made and verified on the same borrowed transcripts (Prover::new(pc, &mut t) / Verifier::new(&mut t)), the subject continues on them: ordered pairs (quick) and triples (thorough) of the history subjects",
         "history_cases": n_hist,
         "history_alphabet": history::alphabet().iter().map(|p| p.name()).collect::<Vec<_>>(),
         "history_depth": hdepth,
@@ -232,8 +303,8 @@ pub fn main(o: &Opts) -> i32 {
                 rep.evaluations += 1;
                 rep.count("violation", 1);
                 rep.violation(Violation {
-                    key: json!({"curve": c.curve, "program": c.prog.name(), "caps": c.caps, "history": history::hist_name(&c.hist)}),
-                    case: json!({"curve": c.curve, "program": c.prog.name(), "caps": c.caps.map(|x| vec![x.0, x.1]), "history": history::hist_name(&c.hist)}),
+                    key: json!({"curve": c.curve, "program": c.prog.name(), "caps": c.caps, "history": history::hist_name(&c.hist), "chain": c.chain.iter().map(|p| p.name()).collect::<Vec<_>>()}),
+                    case: json!({"curve": c.curve, "program": c.prog.name(), "caps": c.caps.map(|x| vec![x.0, x.1]), "history": history::hist_name(&c.hist), "chain": c.chain.iter().map(|p| p.name()).collect::<Vec<_>>()}),
                     expected: expected.clone(),
                     observed: observed.clone(),
                     note: "satisfied constraint system".into(),
@@ -262,7 +333,8 @@ pub fn replay(path: &str, o: &Opts) -> i32 {
     let prog = Program::parse(case["program"].as_str().unwrap()).expect("program");
     let caps = case["caps"].as_array().map(|a| (a[0].as_u64().unwrap() as usize, a[1].as_u64().unwrap() as usize));
     let hist = history::parse_hist(case["history"].as_str().unwrap_or("")).expect("history");
-    let c = Case { curve, prog, caps, class: "replay", hist };
+    let chain: Vec<Program> = case["chain"].as_array().map(|a| a.iter().map(|x| Program::parse(x.as_str().unwrap()).expect("chain program")).collect()).unwrap_or_default();
+    let c = Case { curve, prog, caps, class: "replay", hist, chain };
     let seed = v["seed"].as_u64().unwrap_or(o.seed);
     let run = || with_curve!(curve, G => { let env = Env::<G>::new(64); format!("{:?}", run_case::<G>(&env, &c, seed)) });
     let a = run();
